@@ -1,2 +1,129 @@
-(** C20 — property theorems (being written) *)
-From PV Require Import Lib.Common Model.C20_Loop.
+(** C20 — property theorems only: statement, [exact] of a lemma proved elsewhere, [Print Assumptions].
+    Model: Model/C20_Loop.v (mirrors RecurrentSelectionBreedingProgram.initialize/reset/advance/evolve on an explicit
+    heap; operators and logbook are arbitrary heap transformers, [opset]). *)
+From PV Require Import Lib.Common Model.C20_Loop Proofs.C20_Loop Proofs.C20_Chain Proofs.C20_Heap Proofs.C20_Indep Proofs.C20_Main.
+Local Open Scope nat_scope.
+
+(** Call order, time index, replicate counter — for ALL operators/logbooks, ALL counts, ALL states: the calls of
+    evolve(nrep, ngen, lbook, loginit) are (after an initialize call if the programme is uninitialised), per replicate
+    r = 1..nrep: reset, evaluate@0, log_initialize@0 if loginit, then for g = 1..ngen the eight calls
+    pselect, log, mate, log, evaluate, log, sselect, log at t_cur = g, every log carrying rep0 + r, everything carrying
+    the constructor's t_max; exactly this sequence when nothing fails, a prefix of it otherwise. *)
+Theorem C20_trace_shape : forall ops strict initres nrep ngen li st,
+  match evolve ops strict initres nrep ngen li st with
+  | (st', evs, ok) =>
+      (ok = true -> map sig evs = evolve_sig (is_initialized st) nrep ngen li (p_tmax st) (p_rep st)
+                    /\ p_rep st' = (p_rep st + Z.of_nat (Z.to_nat nrep))%Z
+                    /\ p_t st' = (if Nat.eqb (Z.to_nat nrep) 0 then p_t st else 1 + Z.of_nat (Z.to_nat ngen))%Z
+                    /\ p_tmax st' = p_tmax st)
+      /\ (ok = false -> prefix (map sig evs) (evolve_sig (is_initialized st) nrep ngen li (p_tmax st) (p_rep st)))
+  end.
+Proof. exact trace_shape. Qed.
+Print Assumptions C20_trace_shape.
+
+(** closed form of the generation part: block g (0-based) of [n] generations started at time [t] is the eight calls in
+    order at time t + g (evolve starts them at t = 1) *)
+Theorem C20_generation_blocks : forall n t tm rep g, g < n ->
+  firstn 8 (skipn (8 * g) (gens_sig n t tm rep)) =
+    [(T_PSEL, (t + Z.of_nat g)%Z, tm, 0%Z); (L_PSEL, (t + Z.of_nat g)%Z, tm, rep); (T_MATE, (t + Z.of_nat g)%Z, tm, 0%Z);
+     (L_MATE, (t + Z.of_nat g)%Z, tm, rep); (T_EVAL, (t + Z.of_nat g)%Z, tm, 0%Z); (L_EVAL, (t + Z.of_nat g)%Z, tm, rep);
+     (T_SSEL, (t + Z.of_nat g)%Z, tm, 0%Z); (L_SSEL, (t + Z.of_nat g)%Z, tm, rep)]
+  /\ length (gens_sig n t tm rep) = 8 * n.
+Proof. intros. split; [now apply gens_sig_nth | apply gens_sig_length]. Qed.
+Print Assumptions C20_generation_blocks.
+
+(** Hand-over — for ALL operators/logbooks and any sequence of evolve calls, failing or not: every call receives
+    exactly the five containers held after its predecessor (the ones the last operator returned, or reset's copies),
+    mate/log_pselect/log_mate receive the mating configuration pselect returned, every operator receives an empty
+    miscout and the following log call receives what the operator left in it, the recorded contents are the heap's
+    contents at the call, and the heap a call starts on is the heap its predecessor left ([chained]). *)
+Theorem C20_calls_chained : forall ops strict initres calls st,
+  chained (view_of st) (snd (fst (evolve_calls ops strict initres calls st))).
+Proof. exact calls_chained. Qed.
+Print Assumptions C20_calls_chained.
+
+(** Replicate independence and immutability of the start state — for ALL operators and logbooks that touch only what
+    they can reach from their arguments and private memory ([ops_wb]: in-place mutation of containers and leaves,
+    aliasing, fresh containers, remembering containers across calls and replicates are all allowed), all counts, any
+    sequence of evolve calls, failing or not: the start containers stay the same objects, no cell of the start
+    region (containers and their leaves) is ever written, and every evaluation at t_cur = 0 (the first call of each
+    replicate) receives containers whose contents equal the start contents at entry, on locations outside the start
+    region that did not exist when the loop was entered. *)
+Theorem C20_start_never_modified_replicates_equal : forall h0 start ops strict initres calls lo st,
+  start_wf h0 start -> length start = 5 ->
+  forallb (fun o : option loc => match o with Some _ => true | None => false end) start = true ->
+  ops_wb ops -> (lo <= 1)%Z -> inv h0 start false lo st ->
+  match evolve_calls ops strict initres calls st with
+  | (st', evs, ok) =>
+      p_start st' = start /\
+      (forall l, SR h0 start l -> hget (p_heap st') l = hget h0 l) /\
+      Forall (fun e => e_tag e = T_EVAL -> e_t e = 0%Z ->
+                       map (map (fun x : Z * loc * list Z => (fst (fst x), snd x))) (e_dat e) = start_contents h0 start /\
+                       forall l, In l (ev_locs e) -> ~ SR h0 start l /\ length h0 <= l) evs
+  end.
+Proof. intros h0 start ops strict initres calls lo st Hwf Hl Hi Ho Hlo Hinv. exact (start_and_replicates h0 start Hwf Hl Hi ops Ho strict initres calls lo st Hlo Hinv). Qed.
+Print Assumptions C20_start_never_modified_replicates_equal.
+
+(** the protected region really is the start state: every start container, every leaf it holds, hence its contents *)
+Theorem C20_start_region_covers : forall h0 start h d,
+  In (Some d) start ->
+  (forall kvs k l, hget h0 d = Some (ODict kvs) -> In (k, l) kvs -> SR h0 start d /\ SR h0 start l) /\
+  ((forall l, SR h0 start l -> hget h l = hget h0 l) -> content1 h d = content1 h0 d).
+Proof. intros h0 start h d Hd. split; [intros kvs k l Hg Hk; eapply SR_covers; eauto | now apply start_contents_preserved]. Qed.
+Print Assumptions C20_start_region_covers.
+
+(** every operator / logbook written in the action language used by the correspondence is well behaved, so the theorem
+    above applies to the very models that are compared with the implementation *)
+Theorem C20_programs_well_behaved : forall g, ops_wb (interp g).
+Proof. exact interp_wb. Qed.
+Print Assumptions C20_programs_well_behaved.
+
+Theorem C20_case_start_protected : forall leaves dicts start g strict initres calls tmax rep0,
+  let st := init_state leaves dicts start tmax rep0 in
+  start_wf (p_heap st) (p_start st) -> length start = 5 -> is_initialized st = true ->
+  match evolve_calls (interp g) strict initres calls st with
+  | (st', evs, ok) =>
+      p_start st' = p_start st /\ (forall l, SR (p_heap st) (p_start st) l -> hget (p_heap st') l = hget (p_heap st) l)
+      /\ Forall (Qev (p_heap st) (p_start st)) evs
+  end.
+Proof. exact case_start_protected. Qed.
+Print Assumptions C20_case_start_protected.
+
+(** deep copy (reset's building block): only allocates, returns a fresh container with fresh leaves and equal contents *)
+Theorem C20_deepcopy_fresh_equal : forall h d h' d',
+  deepcopy h d = Some (h', d') ->
+  (exists ext, h' = h ++ ext) /\ length h <= d' < length h' /\
+  (forall x, In x (snap1 h' d') -> length h <= snd (fst x) < length h') /\
+  ((forall kvs k l, hget h d = Some (ODict kvs) -> In (k, l) kvs -> l < length h) -> content1 h' d' = content1 h d).
+Proof. exact deepcopy_fresh_equal. Qed.
+Print Assumptions C20_deepcopy_fresh_equal.
+
+(** an uninitialised programme stores what the initialisation operator returned and runs the loop on that state *)
+Theorem C20_evolve_initialises : forall ops initres nrep ngen li st,
+  is_initialized st = false -> length initres = 5 ->
+  evolve ops false initres nrep ngen li st =
+    (let st1 := mkSt (p_heap st) (p_stash st) initres (p_work st) (p_t st) (p_tmax st) (p_rep st) (p_mcfg st) (p_misc st) in
+     let '(st', evs, ok) := iter (Z.to_nat nrep) (replicate ops ngen li) st1 in
+     (st', mkEv T_INIT 0 0 0 [] [] [] [] 0 [] (p_heap st) (p_heap st) :: evs, ok)).
+Proof. exact evolve_initialises. Qed.
+Print Assumptions C20_evolve_initialises.
+
+(** ... but "for all operator implementations" fails at initialisation: initialize() omits the [miscout] argument that the
+    abstract InitializationOperator declares, so an operator following the interface literally makes evolve raise
+    before anything is evaluated (known finding C20-initialize-miscout) *)
+Theorem C20_initialize_strict_refuted :
+  exists (ops : opset) (st : pstate) (initres : list (option loc)),
+    is_initialized st = false /\ length initres = 5 /\
+    forallb (fun o : option loc => match o with Some _ => true | None => false end) initres = true /\
+    evolve ops true initres 1 1 true st = (st, [], false).
+Proof. exact init_strict_refuted. Qed.
+Print Assumptions C20_initialize_strict_refuted.
+
+(** non-vacuity: a concrete five-container start state with shared leaves and one dict in two slots meets every
+    hypothesis, with in-place mutating, aliasing and remembering operators *)
+Example C20_hyps_satisfiable :
+  let st := init_state [[1; 2]; [3]]%Z [[(0%Z, 0); (1%Z, 0)]; [(0%Z, 1)]; []; []; [(2%Z, 1)]] [Some 0; Some 1; Some 0; Some 3; Some 4] 5 0 in
+  start_wf (p_heap st) (p_start st) /\ length (p_start st) = 5 /\ is_initialized st = true
+  /\ inv (p_heap st) (p_start st) false 0 st
+  /\ ops_wb (interp (mkProgs [AApp 0 0 7; ASet 5 0 [1%Z]] [AAppT 1 0; ADel 0 2] [ASetT 3 1; AStash 0 0] [ANew 0; AUnstash 2 0] [] [] [] [] [])).
+Proof. exact example_start_wf. Qed.
